@@ -465,6 +465,7 @@ func SendWithMRU(b bpv7.Bundle, mru uint64) (outcome string, segments int) {
 		ret <- tm.Send(b)
 	}()
 	deadline := time.Now().Add(20 * time.Second)
+	lastN, lastProgress := -1, time.Now()
 	for {
 		select {
 		case err := <-ret:
@@ -490,6 +491,13 @@ func SendWithMRU(b bpv7.Bundle, mru uint64) (outcome string, segments int) {
 			return "HANG", n
 		}
 		time.Sleep(100 * time.Microsecond)
-		vtime.Advance(11 * time.Second)
+		// the sender's acknowledgement timeout runs on the virtual clock: let it expire only when the transfer has
+		// made no progress for a while of real time (otherwise the timeout would race with the sender itself)
+		if n != lastN {
+			lastN, lastProgress = n, time.Now()
+		} else if time.Since(lastProgress) > 300*time.Millisecond {
+			vtime.Advance(11 * time.Second)
+			lastProgress = time.Now()
+		}
 	}
 }
